@@ -479,6 +479,16 @@ def run(ctx: Ctx, rep: Report, tier: str):
     c.r7()
     c.r8()
     c.r9()
+    rep.rule("C09.R11", "each Storage method issues its own kind of statement (create: plain INSERT, update: UPDATE, delete: DELETE, read/read_all: SELECT) "
+             "with no conflict clause (no INSERT OR REPLACE / upsert): an update can never create a row and a create can never overwrite one", expect_min=5)
+    KIND = {"create": "insert", "update": "update", "delete": "delete", "read": "select", "read_all": "select"}
+    for f_, call_, st_, _ in c.stmts:
+        if f_.name not in KIND:
+            continue
+        okk = st_.kind == KIND[f_.name] and not st_.conflict and " or " not in (" " + st_.text.lower().split("cloud")[0]) and "on conflict" not in st_.text.lower()
+        rep.check("C09.R11", "%s|kind" % short(f_.qname), ctx.line(f_, call_), okk, "%s issues %s" % (f_.name, st_.kind.upper()),
+                  "%s issues `%s`: %s" % (f_.name, st_.text[:60], "an update of a missing id silently creates the row instead of failing (a deleted entry is resurrected)" if f_.name == "update"
+                                          else "the method's statement kind changed / has a conflict clause that lets it replace another row"))
     rep.rule("C09.R10", "a statement that fails with sqlite3.OperationalError is retried once on a fresh connection, still inside the mutex", expect_min=1)
     ex = c.execf
     hs = [h for t in ctx.own_nodes(ex) if isinstance(t, ast.Try) for h in t.handlers if h.type is not None and "OperationalError" in ast.unparse(h.type)]
